@@ -119,7 +119,7 @@ func c20HTTPRun(r *vlib.Run, lg *c20Log, dir, kind string, sig syscall.Signal, n
 	}
 	var failer *c20Task
 	if strings.HasSuffix(kind, "+failing-task") {
-		failer = &c20Task{name: "scripted", run: "fail", stop: "prompt", ready: "now", lg: lg, term: srv.t.terminate,
+		failer = &c20Task{name: "scripted", run: "fail", stop: "prompt", ready: "now", lg: lg, term: c20TerminateFunc(r, srv),
 			readyC: make(chan struct{}), trigger: make(chan struct{}), stopGate: make(chan struct{}), err: fmt.Errorf("boom-from-scripted")}
 		tasks = append(tasks, failer)
 	}
